@@ -216,8 +216,8 @@ fn gen_weight(r: &mut Rng, wp: WProfile) -> Option<i64> {
         WProfile::Large => Some(match r.below(4) {
             0 => 1i64 << 40,
             1 => (1i64 << 40) - r.range(0, 3),
-            2 => r.range(0, 1 << 30),
-            _ => r.range(0, 9),
+            2 => r.range(1, 1 << 30),
+            _ => r.range(1, 9),
         }),
         WProfile::Mixed => match r.below(8) {
             0 => None,
@@ -860,6 +860,60 @@ fn check_walk(g: &GG, s: u64, t: u64, nodes: &[u64], edges: &[u64], f: &Filt) ->
     Ok(total)
 }
 
+/// is the ordered hop u -> v over `e` allowed under `dir`?
+fn hop_ok(e: &GE, u: u64, v: u64, dir: Direction) -> bool {
+    dir_step(e, u, dir).contains(&v)
+}
+
+/// Bellman-Ford under a traversal direction (Outgoing = along edges, Incoming = against, Both = either)
+fn ref_costs_dir(g: &GG, s: u64, dir: Direction) -> BTreeMap<u64, i128> {
+    let mut dist: BTreeMap<u64, i128> = BTreeMap::new();
+    dist.insert(s, 0);
+    for _ in 0..=g.nodes.len() {
+        let mut changed = false;
+        for e in &g.edges {
+            for (u, v) in [(e.src, e.dst), (e.dst, e.src)] {
+                if !hop_ok(e, u, v, dir) {
+                    continue;
+                }
+                if let Some(&du) = dist.get(&u) {
+                    let nd = du + weight_of(e);
+                    if dist.get(&v).map_or(true, |&dv| nd < dv) {
+                        dist.insert(v, nd);
+                        changed = true;
+                    }
+                }
+            }
+        }
+        if !changed {
+            break;
+        }
+    }
+    dist
+}
+
+fn check_walk_dir(g: &GG, s: u64, t: u64, nodes: &[u64], edges: &[u64], dir: Direction) -> Result<i128, WalkErr> {
+    if nodes.len() != edges.len() + 1 {
+        return Err(WalkErr::Shape);
+    }
+    if nodes.first() != Some(&s) || nodes.last() != Some(&t) {
+        return Err(WalkErr::Endpoints);
+    }
+    let mut total = 0i128;
+    for i in 0..edges.len() {
+        let Some(e) = g.edge(edges[i]) else { return Err(WalkErr::UnknownEdge) };
+        let (u, v) = (nodes[i], nodes[i + 1]);
+        if !hop_ok(e, u, v, dir) {
+            if hop_ok(e, u, v, Direction::Both) {
+                return Err(WalkErr::Backwards);
+            }
+            return Err(WalkErr::NotJoined);
+        }
+        total += weight_of(e);
+    }
+    Ok(total)
+}
+
 fn walk_class(site: &str, e: &WalkErr) -> String {
     match e {
         WalkErr::Backwards => format!("{site}/walks_directed_edge_backwards"),
@@ -1036,16 +1090,16 @@ fn do_weighted(c: &mut Ctx, s: u64, t: u64, costs: &BTreeMap<u64, i128>, negativ
 }
 
 /// A* with the default (zero) heuristic and Direction::Outgoing: oracle only (no Lean model).
-fn do_astar(c: &mut Ctx, s: u64, t: u64, costs: &BTreeMap<u64, i128>) {
+fn do_astar(c: &mut Ctx, s: u64, t: u64, costs: &BTreeMap<u64, i128>, dir: Direction) {
     let g = c.g;
     let tag = c.tag.clone();
-    let line = format!("astar {s} {t} weight=w dir=out");
-    let cfg = AStarConfig::new().weight_property("w");
+    let line = format!("astar {s} {t} weight=w dir={}", dir_name(dir));
+    let cfg = AStarConfig::new().weight_property("w").direction(dir);
+    c.rep.hit(&format!("astar.dir.{}", dir_name(dir)));
     let res = c.eng.astar_path(s, t, &cfg);
     let key = format!("{}|{}", tag, line);
     c.rep.case("astar_path", if s != t { Some(&key) } else { None });
     let site = "graph_engine.astar_path";
-    let none = Filt::default();
     match res {
         Err(e) => viol(c.rep, &format!("{site}/unexpected_error"), &format!("{e:?}"), qjson(g, &tag, &line)),
         Ok(r) => match r.path {
@@ -1066,7 +1120,7 @@ fn do_astar(c: &mut Ctx, s: u64, t: u64, costs: &BTreeMap<u64, i128>) {
                     }
                     return;
                 }
-                match check_walk(c.g, s, t, &p.nodes, &p.edges, &none) {
+                match check_walk_dir(c.g, s, t, &p.nodes, &p.edges, dir) {
                     Err(e) => viol(c.rep, &walk_class(site, &e), &format!("returned {shown}: {e:?}"), qjson(g, &tag, &line)),
                     Ok(sum) => {
                         if cost_exact(p.total_weight) != Some(sum) {
@@ -1138,6 +1192,53 @@ fn do_all_paths(c: &mut Ctx, s: u64, t: u64) {
             }
         }
         Err(GraphError::NodeNotFound(_)) => c.rep.hit("allpaths.nonode"),
+        Err(e) => viol(c.rep, &format!("{site}/unexpected_error"), &format!("{e:?}"), qjson(g, &tag, &line)),
+    }
+}
+
+/// find_all_weighted_paths (all minimum-weight paths): oracle only.
+fn do_all_weighted(c: &mut Ctx, s: u64, t: u64, costs: &BTreeMap<u64, i128>) {
+    let g = c.g;
+    let tag = c.tag.clone();
+    let line = format!("find_all_weighted_paths {s} {t} w");
+    let res = c.eng.find_all_weighted_paths(s, t, "w", None);
+    let key = format!("{}|{}", tag, line);
+    c.rep.case("find_all_weighted_paths", if s != t && g.has(s) && g.has(t) { Some(&key) } else { None });
+    let site = "graph_engine.find_all_weighted_paths";
+    let none = Filt::default();
+    match res {
+        Ok(ap) => {
+            c.rep.hit("allwpaths.ok");
+            let want = costs.get(&t).copied();
+            if cost_exact(ap.total_weight) != want || want.is_none() {
+                viol(c.rep, &format!("{site}/not_optimal"), &format!("total_weight {} but the minimum is {want:?}", ap.total_weight), qjson(g, &tag, &line));
+                return;
+            }
+            if ap.paths.is_empty() {
+                viol(c.rep, &format!("{site}/missed_path"), "no path listed although a total weight is reported", qjson(g, &tag, &line));
+            }
+            for p in &ap.paths {
+                match check_walk(g, s, t, &p.nodes, &p.edges, &none) {
+                    Err(e) => {
+                        viol(c.rep, &walk_class(site, &e), &format!("path n={} e={}: {e:?}", ids(&p.nodes), ids(&p.edges)), qjson(g, &tag, &line));
+                        return;
+                    }
+                    Ok(sum) => {
+                        if Some(sum) != want {
+                            viol(c.rep, &format!("{site}/wrong_total"), &format!("listed path n={} e={} weighs {sum}, minimum {want:?}", ids(&p.nodes), ids(&p.edges)), qjson(g, &tag, &line));
+                            return;
+                        }
+                    }
+                }
+            }
+        }
+        Err(GraphError::PathNotFound) => {
+            c.rep.hit("allwpaths.none");
+            if let Some(best) = costs.get(&t) {
+                viol(c.rep, &format!("{site}/missed_path"), &format!("PathNotFound although a walk of cost {best} exists"), qjson(g, &tag, &line));
+            }
+        }
+        Err(GraphError::NodeNotFound(_)) => c.rep.hit("allwpaths.nonode"),
         Err(e) => viol(c.rep, &format!("{site}/unexpected_error"), &format!("{e:?}"), qjson(g, &tag, &line)),
     }
 }
@@ -1438,12 +1539,30 @@ fn run_graph(plan: &Planned, m: &mut Model, rep: &mut Report, r: &mut Rng, budge
         }
     }
     // ---- weighted
+    let has_zero = g.edges.iter().any(|e| weight_of(e) == 0);
     for &s in &all {
         let costs = ref_costs(&g, s);
+        let costs_in = ref_costs_dir(&g, s, Direction::Incoming);
+        let costs_both = ref_costs_dir(&g, s, Direction::Both);
+        debug_assert_eq!(costs, ref_costs_dir(&g, s, Direction::Outgoing));
         for &t in &all {
             do_weighted(&mut c, s, t, &costs, negative);
             if !negative {
-                do_astar(&mut c, s, t, &costs);
+                do_astar(&mut c, s, t, &costs, Direction::Outgoing);
+                if g.nodes.len() <= 12 || r.chance(1, 4) {
+                    do_astar(&mut c, s, t, &costs_in, Direction::Incoming);
+                    do_astar(&mut c, s, t, &costs_both, Direction::Both);
+                }
+                // find_all_weighted_paths does not terminate (unbounded memory) when a zero-weight
+                // cycle or self-loop lies on a minimum-weight route (equal-cost parents form a cycle
+                // that enumerate_weighted_paths follows forever; reproduce with
+                // `corr_paths --probe-awp-zero-loop` under `timeout`/`ulimit -v`), so it is only
+                // exercised on graphs without zero-weight edges.
+                if has_zero && !budget.awp_zero_ok {
+                    c.rep.hit("allwpaths.skipped_zero_weight_graph");
+                } else if g.nodes.len() <= 12 || r.chance(1, 3) {
+                    do_all_weighted(&mut c, s, t, &costs);
+                }
             }
         }
     }
@@ -1492,6 +1611,9 @@ fn run_graph(plan: &Planned, m: &mut Model, rep: &mut Report, r: &mut Rng, budge
 }
 
 struct Budget {
+    /// `--awp-zero-ok`: also run find_all_weighted_paths on graphs with zero-weight edges
+    /// (only once proposed/C18-all-weighted-paths-zero-cycle.diff is applied; it hangs otherwise)
+    awp_zero_ok: bool,
     filters: usize,
     filter_pair_num: u64,
     var_small: usize,
@@ -1543,12 +1665,26 @@ fn main() {
     .iter()
     .map(|s| s.to_string())
     .collect();
+    if args.extra.iter().any(|a| a == "--probe-awp-zero-loop") {
+        // 1 -> 2 (weight 0) plus a zero-weight self-loop on 2: find_all_weighted_paths(1, 2) never returns
+        let eng = GraphEngine::new();
+        let a = eng.create_node("N", HashMap::new()).unwrap();
+        let b = eng.create_node("N", HashMap::new()).unwrap();
+        let w0 = || HashMap::from([("w".to_string(), PropertyValue::Int(0))]);
+        eng.create_edge(a, b, "t", w0(), true).unwrap();
+        eng.create_edge(b, b, "t", w0(), true).unwrap();
+        eprintln!("calling find_all_weighted_paths({a}, {b}, \"w\") ...");
+        let r = eng.find_all_weighted_paths(a, b, "w", None);
+        eprintln!("returned: {:?}", r.map(|x| x.paths.len()));
+        return;
+    }
     let mut m = Model::spawn(&args.driver);
     let root = Rng::new(args.seed);
+    let awp_zero_ok = args.extra.iter().any(|a| a == "--awp-zero-ok");
     let budget = if args.thorough {
-        Budget { filters: 3, filter_pair_num: 8, var_small: 60, var_large: 25 }
+        Budget { awp_zero_ok, filters: 3, filter_pair_num: 8, var_small: 60, var_large: 25 }
     } else {
-        Budget { filters: 2, filter_pair_num: 4, var_small: 30, var_large: 10 }
+        Budget { awp_zero_ok, filters: 2, filter_pair_num: 4, var_small: 30, var_large: 10 }
     };
 
     // templates first
